@@ -767,3 +767,54 @@ def label_custom(u: Unit):
             u.oblige(p, f"label.custom[{second}].id_is_the_run_index", bool(ok_id), {"ids": str(ids)}, LABEL_CUSTOM_REPLAY)
             u.oblige(p, f"label.custom[{second}].each_parameter_under_its_own_name", bool(ok), {"coords": str([c[0] for c in coords])}, LABEL_CUSTOM_REPLAY)
         u.cover(f"label.custom.cover[{second}]", ps, lambda p: p.kind == "return")
+
+
+# ---- the processor of a run carries EXACTLY the values of its entry (zero, False and empty values included) ---------------------------------
+ZERO_REPLAY = lambda w: {"code": """
+import warnings, numpy as np, verif_probes as VP, pyxel
+from pyxel.exposure import Readout
+from pyxel.observation import Observation, ParameterValues
+from pyxel.observation.misc import create_new_processor
+from pyxel.pipelines import DetectionPipeline, ModelFunction, Processor
+warnings.simplefilter('ignore')
+VIOLATED, DETAIL = False, 'every run is made with exactly the values of its entry, zero included'
+pipe = DetectionPipeline(photon_collection=[ModelFunction(func='pyxel.models.photon_collection.illumination', name='illum', arguments={'level': 500.0})])
+proc = Processor(detector=VP.detector(quantum_efficiency=0.8), pipeline=pipe)
+for key, val, get in (('pipeline.photon_collection.illum.arguments.level', 0.0, lambda p: p.pipeline.photon_collection.illum.arguments['level']),
+                      ('pipeline.photon_collection.illum.arguments.level', 0, lambda p: p.pipeline.photon_collection.illum.arguments['level']),
+                      ('detector.characteristics.quantum_efficiency', 0.0, lambda p: p.detector.characteristics.quantum_efficiency),
+                      ('pipeline.photon_collection.illum.enabled', False, lambda p: p.pipeline.photon_collection.illum.enabled)):
+    for make in (lambda: create_new_processor(processor=proc, parameter_dict={key: val}), lambda: proc.replace({key: val})):
+        got = get(make())
+        if got != val or type(got) is not type(val):
+            VIOLATED, DETAIL = True, f'requested {key} = {val!r}: the processor of the run holds {got!r}'; break
+    if VIOLATED: break
+if not VIOLATED:
+    obs = Observation(parameters=[ParameterValues(key='pipeline.photon_collection.illum.arguments.level', values=[0.0, 10.0, 20.0])], readout=Readout(times=[1.0]))
+    dt = pyxel.run_mode(mode=obs, detector=VP.detector(), pipeline=pipe)
+    node = dt['/bucket'] if '/bucket' in dt.groups else dt
+    ph = node['photon']
+    for lv in (0.0, 10.0, 20.0):
+        v = float(np.asarray(ph.sel(level=lv).values).ravel()[0])
+        if v != lv:
+            VIOLATED, DETAIL = True, f'the entry labelled level={lv} holds photon={v}'; break
+""", "expect": "the run labelled with a value is made with that value; 0 / 0.0 / False are values like any other"}
+
+
+def _new_processor_values(u: Unit):
+    """C06.new_processor / replace units (imported late: C06 imports this module): the copy made for a run holds every requested value —
+    arbitrary reals and integers, zero included — and nothing else differs from the caller's processor."""
+    from . import C06 as _C06
+    for name in ("new_processor", "replace"):
+        f = dict(_verify_units("C06")).get(name)
+        if f is not None:
+            f(u)
+
+
+def _verify_units(prop):
+    from pyvc import verify as _v
+    return _v.UNITS.get(prop, [])
+
+
+unit("C05", "run.processor_values")(_new_processor_values)
+STANDIN = dict(globals().get("STANDIN", {}), **{r"run\.processor_values": ZERO_REPLAY})
